@@ -1,6 +1,7 @@
 // ops on dimension descriptors (C13), property values (C14) and a few setters used by the reject family (C08)
 #include "common.hpp"
 #include "store.hpp"
+#include <map>
 
 using namespace drv;
 using namespace drv::store;
@@ -43,10 +44,43 @@ DRV_OP(adim) {
         return std::to_string(d.index());
     });
 }
+namespace {
+// dimension handles kept across operations (per array slot, for the file session they were fetched in)
+struct HeldDims { nix::File file; std::vector<nix::Dimension> dims; };
+std::map<std::string, HeldDims> &heldDims() { static std::map<std::string, HeldDims> m; return m; }
+struct InitHeld { InitHeld() { resetHooks().push_back([]() { heldDims().clear(); }); } } initHeld;
+}
 // ddims <array slot> => ok 0|1  (deleteDimensions)
 DRV_OP(ddims) {
     if (a.size() != 2) throw ProtoError("ddims arity");
+    heldDims().erase(a[1]);
     return guarded([&]() { return std::string(slot(a[1]).a.deleteDimensions() ? "1" : "0"); });
+}
+// xdim <array slot> : the descriptors of the array through dimension handles KEPT from an earlier xdim (same file session, same
+// number of descriptors) against handles fetched now: nothing may be remembered in a handle
+//   => ok held <n> (handles fetched and kept) | ok same <n> | ok DIFFER <index> held=<hex> fresh=<hex>
+DRV_OP(xdim) {
+    if (a.size() != 2) throw ProtoError("xdim arity");
+    return guarded([&]() {
+        nix::DataArray &da = slot(a[1]).a;
+        size_t n = (size_t) da.dimensionCount();
+        auto it = heldDims().find(a[1]);
+        if (it == heldDims().end() || !(it->second.file == state().file) || it->second.dims.size() != n) {
+            HeldDims h; h.file = state().file;
+            for (size_t i = 1; i <= n; i++) h.dims.push_back(da.getDimension(i));
+            // ask each once: a handle that remembers what it read has something to remember now
+            for (auto &d : h.dims) { try { (void) dimTok(d); } catch (...) {} }
+            heldDims()[a[1]] = h;
+            return "held " + std::to_string(n);
+        }
+        for (size_t i = 1; i <= n; i++) {
+            std::string held, fresh;
+            try { held = dimTok(it->second.dims[i - 1]); } catch (const std::exception &e) { held = std::string("!") + classify(e); }
+            try { fresh = dimTok(da.getDimension(i)); } catch (const std::exception &e) { fresh = std::string("!") + classify(e); }
+            if (held != fresh) return "DIFFER " + std::to_string(i) + " held=" + hexStr(held) + " fresh=" + hexStr(fresh);
+        }
+        return "same " + std::to_string(n);
+    });
 }
 // dims <array slot> => ok <count> [descriptors]
 DRV_OP(dims) {
